@@ -16,7 +16,8 @@
    All theorems quantify over ALL histories [ops] (induction over the list, no bound). *)
 From MptV Require Import Base.Mem C15.RefcountModel C15.RefcountSpec C15.RefcountCounter C15.RefcountInv
   C15.RefcountSteps C15.RefcountFr C15.RefcountOps C15.RefcountRun C15.RefcountAssign C15.RefcountRel C15.RefcountFrame
-  C15.RefcountSim C15.RefcountRefine C15.ChainModel C15.ChainSpec C15.ChainInv C15.ChainOps C15.ChainSim.
+  C15.RefcountSim C15.RefcountRefine C15.ChainModel C15.ChainSpec C15.ChainInv C15.ChainOps C15.ChainSim
+  C15.ReplyModel C15.ReplySpec C15.ReplySim.
 Local Open Scope N_scope.
 
 (* ---- the counter ---- *)
@@ -446,6 +447,64 @@ Proof. vm_compute. repeat split. Qed.
 Example C15_ex_chain_refines_init : CRef ninit csinit.
 Proof. exact CRef_init. Qed.
 
+(* ================= the deferrable reply context (ReplyModel.v / ReplySpec.v / ReplySim.v) =================
+   handles on a context = metatype pointers + detached replies; operations PNew PSet PDefer PSend PReply PAddref PUnref PFail *)
+Local Open Scope nat_scope.
+
+(* every operation from EVERY state satisfying the invariant: no fault, the specification (run on the abstraction of the
+   state: no counter, no destruction flag) returns the same result and the same calls of the send callback, and its
+   successor IS the abstraction of the model's successor; the invariant is kept *)
+Theorem C15_reply_step_refines_spec : forall s op, PInv s ->
+  exists s' out evs, pstep s op = Ok (s', out, evs) /\ psstep (pabs s) op = (pabs s', out, evs) /\ PInv s'.
+Proof. exact psim_step. Qed.
+
+Theorem C15_reply_refinement_preserves_observation : forall s r e, PInv s ->
+  psobserve (pabs s) r e = pobserve s r e /\ pleaked s = false.
+Proof. exact (fun s r e I => conj (pobserve_abs s r e I) (pleaked_never s I)). Qed.
+
+Theorem C15_reply_history_refines_spec : forall ops,
+  exists f, prun pinit ops = (fst (psrun psinit ops), Some f) /\ snd (psrun psinit ops) = pabs f /\ PInv f /\
+            pleaked f = psleaked (snd (psrun psinit ops)).
+Proof. exact preply_history_refines. Qed.
+
+Theorem C15_reply_destroyed_iff_last_handle_dropped : forall ops f,
+  prun pinit ops = (fst (psrun psinit ops), Some f) -> snd (psrun psinit ops) = pabs f -> PInv f ->
+  forall o x, nth_error (pobjs f) o = Some x ->
+    pdead x = negb (palive (snd (psrun psinit ops)) o) /\
+    (pdead x = false -> pcnt x = N.of_nat (ptotal (snd (psrun psinit ops)) o)).
+Proof. exact preply_destroyed_iff_last. Qed.
+
+(* defer() while no request is pending: no handle, and NOTHING changes (counter, slots, data), in model and specification *)
+Theorem C15_reply_refused_defer_unchanged : forall s i d o x,
+  PInv s -> mslot s i = Some o -> nth_error (pobjs s) o = Some x -> rlen (pdata x) = 0%N ->
+  exists r, pstep s (PDefer i d) = Ok (s, r, []) /\ (r = PE \/ r = PX) /\
+            psstep (pabs s) (PDefer i d) = (pabs s, r, []).
+Proof. exact preply_refused_defer_unchanged. Qed.
+
+Theorem C15_reply_last_unref_sends_default_reply_once : forall s i o x l id,
+  PInv s -> mslot s i = Some o -> PH s o = 1%nat -> nth_error (pobjs s) o = Some x ->
+  psend x = true -> abs_data (pdata x) = Some (l, id) ->
+  exists s', pstep s (PUnref i) = Ok (s', PD, [mksend o l id false]) /\ PInv s' /\ PH s' o = 0%nat /\
+             exists x', nth_error (pobjs s') o = Some x' /\ pdead x' = true.
+Proof. exact preply_last_unref_default_reply. Qed.
+
+(* non-vacuity: set id A, defer (accepted), defer (REFUSED: nothing pending, counter stays 2), set id B, answer A through the
+   detached reply, drop the last handle: default reply for B, context destroyed *)
+Example C15_ex_reply_refused_defer :
+  fst (prun pinit [PNew 0 2; PSet 0 2 17; PDefer 0 0; PDefer 0 1; PSet 0 2 34; PReply 0 true; PUnref 0]) =
+  [PObs PD [] [PLive 1 true None] [Some 0; None; None; None; None; None] [None; None; None];
+   PObs (PR 0) [] [PLive 1 true (Some (2%N, 17%N))] [Some 0; None; None; None; None; None] [None; None; None];
+   PObs PD [] [PLive 2 true None] [Some 0; None; None; None; None; None] [Some (0, Some (2%N, 17%N)); None; None];
+   PObs PE [] [PLive 2 true None] [Some 0; None; None; None; None; None] [Some (0, Some (2%N, 17%N)); None; None];
+   PObs (PR 0) [] [PLive 2 true (Some (2%N, 34%N))] [Some 0; None; None; None; None; None] [Some (0, Some (2%N, 17%N)); None; None];
+   PObs (PR 7) [mksend 0 2 17 true] [PLive 1 true (Some (2%N, 34%N))] [Some 0; None; None; None; None; None] [None; None; None];
+   PObs PD [mksend 0 2 34 false] [PDead] [None; None; None; None; None; None] [None; None; None]].
+Proof. vm_compute. reflexivity. Qed.
+
+Example C15_ex_reply_refines_init : PInv pinit /\ pabs pinit = psinit.
+Proof. exact (conj PInv_init pabs_init). Qed.
+
+
 Print Assumptions C15_raise_refuses_zero_and_max.
 Print Assumptions C15_lower_returns_remaining.
 Print Assumptions C15_counter_refines_spec.
@@ -476,3 +535,9 @@ Print Assumptions C15_chain_destroyed_iff_last_handle_dropped.
 Print Assumptions C15_chain_step_keeps_successor.
 Print Assumptions C15_chain_release_cascade.
 Print Assumptions C15_chain_step_preserves_invariant.
+Print Assumptions C15_reply_step_refines_spec.
+Print Assumptions C15_reply_refinement_preserves_observation.
+Print Assumptions C15_reply_history_refines_spec.
+Print Assumptions C15_reply_destroyed_iff_last_handle_dropped.
+Print Assumptions C15_reply_refused_defer_unchanged.
+Print Assumptions C15_reply_last_unref_sends_default_reply_once.
